@@ -91,6 +91,9 @@ class DemoStorage(ConflictResolvingStorage):
         a changes database was provided and ``False`` otherwise.
         """
 
+        # With a base of our own (empty) the changes are all there is.
+        self._temporary_base = base is None
+
         if close_base_on_close is None:
             if base is None:
                 base = ZODB.MappingStorage.MappingStorage()
@@ -313,10 +316,14 @@ class DemoStorage(ConflictResolvingStorage):
                 self._next_oid = random.randint(1, 1 << 62)
 
     def pack(self, t, referencesf, gc=None):
+        # The changes can be garbage-collected on their own only if there
+        # is nothing in the base: a sweep of the changes alone cannot follow
+        # references through objects that live in the base.
+        standalone = self._temporary_changes and self._temporary_base
         if gc is None:
-            if self._temporary_changes:
+            if standalone:
                 return self.changes.pack(t, referencesf)
-        elif self._temporary_changes:
+        elif standalone:
             return self.changes.pack(t, referencesf, gc=gc)
         elif gc:
             raise TypeError(
